@@ -105,8 +105,8 @@ def check_case(case, acc):
             acc.cls("length-1-vector")
         for cname, box in (("list", list), ("ndarray", np.array)):
             x = box(v)
-            for fn, args, exp in (("chao1", (x,), c1), ("var_chao1", (x,), var), ("chao2", (x, 2), c2), ("chao2", (x, 5), c2),
-                                  ("var_chao2", (x, 2), var), ("var_chao2", (x, 5), var)):
+            for fn, args, exp in (("chao1", (x,), c1), ("var_chao1", (x,), var), ("chao2", (x, 2), c2), ("chao2", (x, 5), c2), ("chao2", (x, 1), c2), ("chao2", (x, 1000), c2),
+                                  ("var_chao2", (x, 2), var), ("var_chao2", (x, 5), var), ("var_chao2", (x, 1), var), ("var_chao2", (x, 1000), var)):      # the closed forms do not involve the number of replicates
                 r = acc.call(getattr(pyrepseq, fn), *args)
                 if not _eq(r, exp):
                     tag = "raised-" + r.type if raised(r) else "value"
